@@ -396,8 +396,13 @@ def run_c36(pid, tier, replay):
     selftested = False
     for name, p in canon_runs:
         casefile = os.path.join(wd, "cases_canon_%s.jsonl" % name)
+        # no -coverage here: TLC's cost accounting of the constant tables (ReportUniverse, the 40-component
+        # tie keys) does not terminate in reasonable time; the model has a single action (Push) and vacuity
+        # is checked on the replayed cases instead
         r, n, _ = _tlc_to_file("MCReportCanon", "MCReportCanon_%s.cfg" % name, CANON_CFG % p, wd, casefile,
-                               coverage=thorough, timeout=2400)
+                               coverage=False, timeout=2400)
+        if n < 2 or r.distinct < 2:
+            raise vf.MachineryError("MCReportCanon/%s exported no cases" % name)
         states += r.distinct
         trans += r.generated
         mism, st = _drive(binary, "canon", casefile)
@@ -405,6 +410,8 @@ def run_c36(pid, tier, replay):
         canon_cases += st["cases"]
         canon_calls += st["canonicalize_calls"]
         tie_cases += st["tie_cases"]
+        if st["tie_cases"] == 0:
+            raise vf.MachineryError("vacuous: MCReportCanon/%s produced no list with a full-key tie" % name)
         bounds.append(dict(p, run="canon:" + name, states=r.distinct, cases=st["cases"], tie_cases=st["tie_cases"]))
         if not samples:
             c = _first(casefile, lambda o: o.get("kind") == "canon" and o["tie"] and len(o["list"]) >= 2)
